@@ -202,14 +202,12 @@ func (c *connection) onProcess(onConnect OnConnect, onRequest OnRequest) (proces
 		// trigger onConnect first
 		if onConnect != nil && c.changeState(connStateNone, connStateConnected) {
 			c.ctx = onConnect(c.ctx, c)
-			if !c.IsActive() && c.changeState(connStateConnected, connStateDisconnected) {
-				// since we hold connecting lock, so we should help to call onDisconnect here
-				onDisconnect, _ := c.onDisconnectCallback.Load().(OnDisconnect)
-				if onDisconnect != nil {
-					onDisconnect(c.ctx, c)
-				}
-			}
 			c.unlock(connecting)
+			// onHup skips onDisconnect while we hold the connecting lock and relies on us,
+			// so the check must come after the unlock or a close in between is lost.
+			if !c.IsActive() {
+				c.onDisconnect()
+			}
 		}
 	START:
 		// The `onRequest` must be executed at least once if conn have any readable data,
